@@ -19,11 +19,23 @@ def _div(a, b):
     return a / b if b != 0 else 0
 
 
-def spec_tent(v, tent):
+def spec_tent(v, tent, fork=False):
     """OpenType tent scalar for ONE axis, written from the spec (independent of supportScalar): value at v of the region
-    (lower, peak, upper); regions the spec says to ignore (peak 0, out of order, straddling 0) evaluate to 1."""
+    (lower, peak, upper); regions the spec says to ignore (peak 0, out of order, straddling 0) evaluate to 1.
+    fork=True decides the case analysis by path forks (each path then carries a polynomial obligation without if-then-else,
+    which is what keeps the non-linear queries easy); fork=False builds one if-then-else term."""
     lower, peak, upper = tent
     ignored = disj([eq(peak, 0), lt(peak, lower), lt(upper, peak), conj([lt(lower, 0), lt(0, upper)])])
+    if fork:
+        if bool(ignored):
+            return 1
+        if bool(eq(v, peak)):
+            return 1
+        if bool(disj([le(v, lower), le(upper, v)])):
+            return 0
+        if bool(lt(v, peak)):
+            return _div(v - lower, peak - lower)
+        return _div(upper - v, upper - peak)
     inner = ite(eq(v, peak), 1,
                 ite(disj([le(v, lower), le(upper, v)]), 0,
                     ite(lt(v, peak), _div(v - lower, peak - lower), _div(upper - v, upper - peak))))
@@ -69,11 +81,11 @@ def rebase_tent(dist):
         if t is None:
             total = total + scalar
         else:
-            total = total + scalar * spec_tent(xn, t)
+            total = total + scalar * spec_tent(xn, t, fork=True)
             # what OpenType requires of a region the instancer emits
             ob('output-tent-ordered', conj([le(t[0], t[1]), le(t[1], t[2])]))
             ob('output-tent-peak-nonzero', neg(eq(t[1], 0)))
-    want = spec_tent(x, tent)
+    want = spec_tent(x, tent, fork=True)
     observe('value', real_of(want) if symbolic() else want)
     ob('value-preserved', eq(total, want))
     ob('library-scalar-agrees-with-spec', eq(supportScalar({'t': x}, {'t': tent}), want))
